@@ -40,11 +40,29 @@ class Tie:
         return cpp, mdl
 
     def run_impl(self, cpp, cases):
-        rc, out, err = core.run_lines(cpp, [self.mode] if self.mode else [], cases, self.timeout, self.env)
-        if len(out) != len(cases):
-            raise InfraError("C++ driver %s returned %d lines for %d cases (rc=%s)\nstderr: %s\nlast: %s"
-                             % (self.cpp_src, len(out), len(cases), rc, err[-2000:], out[-3:]))
-        return [self.canon(o) for o in out]
+        """One output line per case. If the implementation driver dies on a case (assert, abort,
+        signal) that is an observation, not an infrastructure error: the case gets the output
+        `CRASH rc=<code>` and the driver is restarted on the remaining cases."""
+        outs = []
+        rest = list(cases)
+        restarts = 0
+        while rest:
+            rc, out, err = core.run_lines(cpp, [self.mode] if self.mode else [], rest, self.timeout, self.env)
+            if len(out) >= len(rest):
+                outs += out[:len(rest)]
+                break
+            if rc == 0:
+                raise InfraError("C++ driver %s returned %d lines for %d cases (rc=0)\nstderr: %s\nlast: %s"
+                                 % (self.cpp_src, len(out), len(rest), err[-2000:], out[-3:]))
+            restarts += 1
+            outs += out
+            why = (err.strip().split("\n")[-1] if err.strip() else "")[:160]
+            outs.append("CRASH rc=%s %s" % (rc, " ".join(why.split())))
+            rest = rest[len(out) + 1:]
+            if restarts > 40:
+                outs += ["CRASH (not run: too many crashes)"] * len(rest)
+                break
+        return [self.canon(o) for o in outs]
 
     def run_model(self, mdl, cases):
         rc, out, err = core.run_lines(mdl, ["model"] + ([self.mode] if self.mode else []), cases, self.timeout)
